@@ -488,6 +488,48 @@ def g_cleanup(mode):
                     fail(group="C13", server=st, violated="bystander connection was disturbed")
             bystander.close()
             del allres[:]
+    # listed known findings (the tracked-resource set is a WeakSet that is cleared after a snapshot walk): two distinct resources that compare equal share one
+    # slot, so only one of them is closed; a resource tracked WHILE the connection is being closed (by another resource's close()) is forgotten unclosed
+    class Handle(object):
+        def __init__(self, name):
+            self.name, self.closed = name, 0
+
+        def __eq__(self, other):
+            return isinstance(other, Handle) and other.name == self.name
+
+        def __hash__(self):
+            return hash(self.name)
+
+        def close(self):
+            self.closed += 1
+
+    class FakeSock(object):
+        def close(self): pass
+        def shutdown(self, *a): pass
+        def setblocking(self, *a): pass
+    RUNS[0] += 1
+    conn = socketutil.SocketConnection(FakeSock())
+    h1, h2 = Handle("same"), Handle("same")
+    conn.tracked_resources.add(h1)
+    conn.tracked_resources.add(h2)
+    conn.close()
+    if (h1.closed, h2.closed) != (1, 1) and "C13-equal-resources-share-a-slot" not in KNOWN:
+        KNOWN.append("C13-equal-resources-share-a-slot")
+    RUNS[0] += 1
+    conn = socketutil.SocketConnection(FakeSock())
+    late = Res("late")
+
+    class Parent(object):
+        closed = 0
+
+        def close(self):
+            Parent.closed += 1
+            conn.tracked_resources.add(late)
+    parent = Parent()
+    conn.tracked_resources.add(parent)
+    conn.close()
+    if Parent.closed == 1 and late.closed == 0 and late not in conn.tracked_resources and "C13-resource-tracked-during-close" not in KNOWN:
+        KNOWN.append("C13-resource-tracked-during-close")
 
 
 # ---------------------------------------------------------------------------------------------------------------------
@@ -517,6 +559,35 @@ def g_context(mode):
 
     def anns(m):
         return {k: bytes(v) for k, v in m.annotations.items()} if m is not None else None
+
+    # listed known finding: client and daemon roles share ONE thread-local response-annotation slot, so a served method that itself calls another Pyro object
+    # gets the inner reply's annotations sent with its own reply to the outer client (and loses what it had set before the nested call)
+    @api.expose
+    class Inner(object):
+        def secret(self):
+            current_context.response_annotations["INNR"] = b"for-my-caller-only"
+            return 1
+
+    @api.expose
+    class Outer(object):
+        def __init__(self, uri):
+            self.uri = uri
+
+        def relay(self):
+            with client.Proxy(self.uri) as p:
+                p._pyroSerializer = "marshal"
+                return p.secret()
+    with Running("thread", THREADPOOL_SIZE=4, THREADPOOL_SIZE_MIN=2) as r2:
+        inner_uri = r2.daemon.register(Inner(), "inner")
+        r2.daemon.register(Outer(inner_uri), "outer")
+        RUNS[0] += 1
+        c = Raw(r2.addr)
+        c.connect("outer")
+        c.invoke("outer", "relay", (), seq=3)
+        m = c.reply()
+        if m is not None and "INNR" in anns(m) and "C12-nested-call-forwards-inner-reply-annotations" not in KNOWN:
+            KNOWN.append("C12-nested-call-forwards-inner-reply-annotations")
+        c.close()
 
     for st in ("thread", "multiplex"):
         with Running(st, THREADPOOL_SIZE=1, THREADPOOL_SIZE_MIN=1) as r:
@@ -1237,6 +1308,46 @@ def g_registry(mode):
                     fail(group="C16", how=how, violated="collecting the object that USED to own the id unregistered the object registered under it now")
             if "idw" in d.objectsById:
                 d.unregister("idw")
+        # listed known findings: (1) sending a registered object BY VALUE (marshal has no auto-proxying; any serializer for an instance of a class that is
+        # momentarily unregistered) goes through class_to_dict, which sets obj._pyroDaemon = None on the object itself: still registered, it is no longer
+        # auto-proxied afterwards; (2) an object registered under two ids (force) and unregistered by object loses only its newest id: it stays reachable
+        # under the older one but travels by value and is reported as not registered
+        def kind_of(uri_, key, ser):
+            with client.Proxy(uri_) as q:
+                q._pyroSerializer = ser
+                v = q.give(key)
+                return "proxy" if isinstance(v, client.Proxy) else "value"
+        serializers.SerializerBase.register_dict_to_class(Box.__module__ + "." + Box.__qualname__.split(".")[-1], lambda c, dd: dd)
+        try:
+            RUNS[0] += 1
+            shelf = Box("shelf")
+            us = d.register(shelf, "shelf9")
+            t1 = Box("t1")
+            REG["t1"] = t1
+            d.register(t1, "t1id")
+            before = kind_of(us, "t1", "serpent")
+            try:
+                kind_of(us, "t1", "marshal")
+            except Exception:      # noqa
+                pass
+            after = kind_of(us, "t1", "serpent")
+            if before == "proxy" and after == "value" and d.objectsById.get("t1id") is t1 and "C16-by-value-trip-switches-auto-proxy-off" not in KNOWN:
+                KNOWN.append("C16-by-value-trip-switches-auto-proxy-off")
+            RUNS[0] += 1
+            t2 = Box("t2")
+            REG["t2"] = t2
+            d.register(t2, "t2a")
+            d.register(t2, "t2b", force=True)
+            d.unregister(t2)
+            if d.objectsById.get("t2a") is t2 and kind_of(us, "t2", "serpent") == "value" and "C16-object-under-two-ids" not in KNOWN:
+                KNOWN.append("C16-object-under-two-ids")
+        except Exception:      # noqa
+            pass
+        finally:
+            serializers.SerializerBase.unregister_dict_to_class(Box.__module__ + "." + Box.__qualname__.split(".")[-1])
+            for i in ("shelf9", "t1id", "t2a", "t2b"):
+                if i in d.objectsById:
+                    d.unregister(i)
 
 
 # ---------------------------------------------------------------------------------------------------------------------
@@ -1495,6 +1606,31 @@ def g_gate(mode):
                     KNOWN.append("C02-nondata-descriptor-getter-runs")
             else:
                 fail(group="C02", name="secret_token", kind="call", violated="an unexposed cached_property was SERVED by a method call")
+        raw.close()
+        # listed known finding: a class-level __getattr__ hook of the target object runs for every unknown public name a method call names, before the refusal
+        class Fallback(object):
+            @api.expose
+            def ping(self):
+                return "pong"
+
+            def __getattr__(self, name):
+                LOG.append("__getattr__ " + name)
+                raise AttributeError(name)
+
+        fb = Fallback()
+        r.daemon.register(fb, "fallback")
+        raw = Raw(r.addr)
+        raw.connect("fallback")
+        RUNS[0] += 1
+        del LOG[:]
+        raw.invoke("fallback", "nosuch", (), seq=9)
+        m = raw.reply()
+        if any(e.startswith("__getattr__ nosuch") for e in LOG):
+            if m is not None and m.flags & P.FLAGS_EXCEPTION:
+                if "C02-getattr-hook-runs-for-unknown-names" not in KNOWN:
+                    KNOWN.append("C02-getattr-hook-runs-for-unknown-names")
+            else:
+                fail(group="C02", name="nosuch", kind="call", violated="a name resolved only by the object's __getattr__ hook was SERVED")
         raw.close()
         # exposure follows the class as it is now: a property that is withdrawn (replaced by an unexposed one, or deleted) and
         # whose metadata cache was reset must be refused afterwards, for reads and writes
